@@ -2,6 +2,7 @@
 use crate::common::{Ctx, Report};
 use serde_json::Value;
 
+pub mod brackets;
 pub mod c04;
 pub mod c05;
 pub mod c06a;
@@ -24,6 +25,8 @@ pub fn run(ctx: &Ctx) -> Option<Report> {
         "C05" => Some(c05::run(ctx)),
         "C07" => Some(c07::run(ctx)),
         "C09" => Some(c09a::run(ctx)),
+        "C10" => Some(brackets::run(ctx, true)),
+        "C11" => Some(brackets::run(ctx, false)),
         "C15" => Some(c15::run(ctx)),
         "C18" => Some(c18::run(ctx)),
         "C20" => Some(c20::run(ctx)),
@@ -50,6 +53,8 @@ pub fn replay(ctx: &Ctx, case: &Value) -> Option<Report> {
         "C05" => Some(c05::replay(ctx, case)),
         "C07" => Some(c07::replay(ctx, case)),
         "C09" => Some(c09a::replay(ctx, case)),
+        "C10" => Some(brackets::replay(ctx, case, true)),
+        "C11" => Some(brackets::replay(ctx, case, false)),
         "C15" => Some(c15::replay(ctx, case)),
         "C18" => Some(c18::replay(ctx, case)),
         "C20" => Some(c20::replay(ctx, case)),
